@@ -64,8 +64,11 @@ RULES = {
     "reader tells an unset field (no type at all) from an explicit default (`elem_type: 0` is TensorType(UNDEFINED)), so a value that "
     "is skipped on writing comes back as something else and the next serialization differs from this one (the value_info entry of the "
     "value disappears): serialize(deserialize(P)) is not a fixed point",
+    "R14": "deserialized nodes list their uses at the right positions (rule shared with C01-R13): every node the deserializer builds goes "
+    "through Node.__init__, where a use is registered under the counter of `enumerate(<the inputs as they are>)` - an empty input name "
+    "in front must not shift the positions of the inputs that follow",
 }
-FLOORS = {"R1": 45, "R2": 6, "R3": 5, "R4": 5, "R5": 2, "R6": 3, "R7": 1, "R8": 3, "R9": 2, "R10": 4, "R11": 1, "R12": 1, "R13": 30}
+FLOORS = {"R1": 45, "R2": 6, "R3": 5, "R4": 5, "R5": 2, "R6": 3, "R7": 1, "R8": 3, "R9": 2, "R10": 4, "R11": 1, "R12": 1, "R13": 30, "R14": 3}
 EXPLANATION = (
     "Effect summaries (file-system primitives through the resolved call graph) for the deserialization entry set and "
     "the cheap tensor accessors; a sub-term analysis of every recursive call edge of the deserializer; dominator "
@@ -835,6 +838,9 @@ def _is_text_field(ctx, g, e) -> bool:
 
 
 def run(ctx):
+    from . import c01
+
+    c01.rule_r13(ctx, rule="R14")
     rule_r12(ctx)
     rule_r11(ctx)
     rule_r13(ctx)
